@@ -35,6 +35,7 @@ fn main() {
         "join" => drivers::join::run(&args),
         "putget" => drivers::putget::run(&args),
         "timeline" => drivers::timeline::run(&args),
+        "modes" => drivers::modes::run(&args),
         "idmath-one" => drivers::idmath::run_one(&args),
         other => {
             eprintln!("unknown driver {other}");
